@@ -13,7 +13,12 @@ A case is one batch, stored column-wise:
    "R", "H", "ref": [[R ints] * N], "hyp": [[H ints] * N], "eos": int|None,
    "include_eos", "norm", "batch_first", "exclude_last": bool, "padding": int,
    "ins", "del", "sub": "n/d"}
-or a malformed call {"kind": "malformed", "what": ...} (documented error class only).
+or a malformed call {"kind": "malformed", "what": ...} (documented error class only),
+or a LARGE batch that is not stored but regenerated from a seed:
+  {"kind": "big", "family": which size measure it pushes, "N", "R", "H", "gen": {"seed", "alphabet", "noise"},
+   + the option cell and presentation keys of a batch; optional "n_sample"}
+(see `expand_big`, `sample_indices`: all pairs are checked model-free - permuted batch, split batch - and a
+sample of pairs is re-run alone and sent to the Lean oracle, op `c01.sample`).
 
 Optional keys (how the SAME batch is handed to the library; absent = the plain form):
   "warn": bool, "call"/"ctor": "positional"|"keyword"|"minimal"|"mixed" (functional call / module
@@ -303,7 +308,7 @@ def expand_big(case):
     in the data is the value A, placed at a per-column length with random filler (further eos included)
     after it. The hypothesis is a noisy, shifted window of the reference (so the cheapest script mixes
     deletions on both sides with substitutions / insertions). The first 4 and the LAST 16 columns always
-    hold long sequences."""
+    hold long sequences, the very last one full-length ones."""
     import numpy as np
     import torch
     g = case["gen"]
@@ -331,6 +336,7 @@ def expand_big(case):
             edge = np.ones(N, dtype=bool)
             edge[4:max(4, N - 16)] = False
             ln = np.where(edge, rs.integers(max(1, (L + 1) // 2) if L else 0, L + 1, N, dtype=np.int64), ln)
+            ln[N - 1] = L  # the very last pair fills the padded sizes (no eos at all)
             pos = np.arange(L, dtype=np.int64)[None, :]
             garb = rs.integers(0, A + 1, (N, L), dtype=np.int64)
             arr[...] = np.where(pos > ln[:, None], garb, arr)
@@ -366,6 +372,12 @@ def big_with_model(case):
 
 
 
+def _brief(seq, n=24):
+    if not isinstance(seq, list):
+        return str(seq)
+    return str(seq) if len(seq) <= n else f"<{len(seq)} tokens: {str(seq[:n])[:-1]}, ...]>"
+
+
 def pick_filler(toks, lo, hi):
     """A token that does not occur in `toks` and fits the tensors' dtype."""
     s = set(toks)
@@ -396,7 +408,10 @@ class C01(PropertyCheck):
             "`exhaustive_note`)), eos-position sweeps, random (N<=4, R,H<=6 quick / <=10 thorough, alphabet<=4, "
             "eos unset / in alphabet / absent, random filler after eos, costs from {1/4,1/2,1,3/2,2,3,4}^3), "
             "zero-size dimensions (every option cell x both layouts x both entries, N in {0,1,2}), long (7..14 / 20) "
-            "and wide (N 16..48) batches, ref-is-hyp batches, malformed calls (both entries). Three quarters of the "
+            "and wide (N 16..48) batches, ref-is-hyp batches, malformed calls (both entries); large problems (kind "
+            "'big', regenerated from a seed: sizes chosen so that (R+1)^2*N, N*R*H, N, R, H cross the powers of two "
+            "up to 2^22 / 2^21 / 2^11, N coprime to 2*3*5*7, hypothesis = noisy shifted window of the reference, long "
+            "pairs in the first 4 and LAST 16 columns; see `input_distribution` keys 'big:*'). Three quarters of the "
             "batches are then handed over in a non-plain form drawn from: tokens renamed injectively to values "
             "around 2^24 / 2^31 / 2^53 / the int64 limits / -100 / negatives; int32 / int16 / int8 / uint8 / mixed token "
             "dtypes; transposed-view, strided-with-offset (inside a garbage-filled storage) and expanded (stride 0) "
@@ -421,6 +436,11 @@ class C01(PropertyCheck):
         "a module carries the options it was constructed with (attributes, extra_repr), a second call of the same "
         "module gives the same tensor, and the library warnings are exactly the documented ones (none with "
         "warn=False)",
+        "large batches (kind 'big'): every pair is checked model-free only (the batch with its columns reversed and "
+        "rotated, and the batch cut into two unequal parts, must give bit-identical numbers pair by pair); at most 12 "
+        "sampled pairs (last, first, middle, around the largest power of two below N, random) are re-run alone and "
+        "compared with the Lean oracle (dpDist / prefixDists on the cut sequences; the per-column model too while "
+        "(R+1)^3*H*pairs <= 4e6; the tensor-level model is not run on them)",
         "norm with an empty reference (0/1 convention) is compared model-vs-implementation but is not part of the "
         "property predicate (the property text is silent; C02 covers the convention)",
     ]
@@ -620,6 +640,73 @@ class C01(PropertyCheck):
         c["H"] = c["R"]
         return c
 
+    # -- large problems (size-triggered code paths)
+    def _big(self, rng, rot, family, N, R, H, n_sample=None):
+        """One large batch; the option cell is random except that entry point (scalar / per-prefix) x layout
+        rotate, so that every family sees all four. Nothing but the sizes and a generator seed is stored."""
+        A = rng.choice([2, 3, 4, 4, 6, 12])
+        kind = rng.choice(["in", "in", "in", "unset", "absent"])
+        eos = {"in": A, "unset": None, "absent": A + 1}[kind]
+        rot[0] += 1
+        mode, bf = [("scalar", False), ("prefix", True), ("scalar", True), ("prefix", False)][rot[0] % 4]
+        c = {"kind": "big", "family": family, "N": N, "R": R, "H": H,
+             "gen": {"seed": rng.randrange(2 ** 31), "alphabet": A, "noise": rng.choice([0.0, 0.1, 0.3])},
+             "mode": mode, "entry": rng.choice(["functional", "module"]), "eos": eos,
+             "include_eos": rng.random() < 0.5, "norm": rng.random() < 0.4, "batch_first": bf,
+             "exclude_last": mode == "prefix" and rng.random() < 0.4 and H >= 2,  # (H = 1: the loop would not run)
+             "padding": rng.choice(PADDINGS)}
+        c["ins"], c["del"], c["sub"] = self._costs(rng)
+        if n_sample is not None:
+            c["n_sample"] = n_sample
+        # presentation (never changes a number); the 4x storage of the strided form only for moderate sizes
+        c["warn"] = rng.random() < 0.3
+        c["call"] = rng.choice(STYLES)
+        c["ctor"] = rng.choice(STYLES)
+        lays = ["contig", "contig", "tview"] + (["strided"] if N * (R + H + 1) <= 2 ** 21 else [])
+        c["layout"] = [rng.choice(lays), rng.choice(lays)]
+        c["tok_dtype"] = rng.choice([["int64", "int64"], ["int64", "int64"], ["int32", "int32"], ["int16", "int64"]])
+        return c
+
+    def big_cases(self, rng, tier):
+        """Problems whose size measures cross the powers of two up to 2^22 (quick) / 2^23 (thorough), one measure
+        at a time: the volume (R+1)^2 * N of the deletion temporary, the work N * R * H, and N, R, H alone (N up
+        to 2^21, R and H as far as a run of a second allows). N is never a multiple of 2, 3, 5, 7."""
+        jit = lambda x: max(2, int(x * (1 + rng.uniform(0.04, 0.9))))
+        rot = [rng.randrange(4)]
+        top = 22 if tier == "quick" else 23
+        rounds = 1 if tier == "quick" else 4
+        for rd in range(rounds):
+            # (R+1)^2 * N: the (R+1, R+1, N) temporary of the deletion step
+            for k in [17, 18, 19, 20, 20, 21, 21, 22] + ([23] if top >= 23 else []):
+                R = rng.choice([15, 31, 63, 127]) if rng.random() < 0.4 else rng.randint(12, 140)
+                if (R + 1) ** 2 * 2 > 2 ** k:
+                    R = rng.choice([15, 31, 63])
+                N = coprime_up(jit(2 ** k / (R + 1) ** 2))
+                yield self._big(rng, rot, "volume", N, R, rng.randint(2, 8))
+            # N * R * H with comparable R and H
+            for k in [20, 21, 22]:
+                R, H = rng.randint(16, 48), rng.randint(16, 48)
+                yield self._big(rng, rot, "work", coprime_up(jit(2 ** k / (R * H))), R, H)
+            # N alone
+            # (reference longer than the hypothesis: nearly every pair needs a deletion after a match, so a single
+            # mistreated position in a batch of 10^5..10^6 shows)
+            for k in ([16, 19, 21] if tier == "quick" else [15, 16, 17, 18, 19, 20, 21]):
+                R = rng.randint(2, 3 if k < 20 else 2)
+                yield self._big(rng, rot, "N", coprime_up(jit(2 ** k) if k < 21 else 2 ** k + rng.randint(1, 2 ** 17)), R,
+                                rng.randint(1, R - 1))
+            # ... and with a zero-size sequence dimension
+            z = rng.random() < 0.5
+            yield self._big(rng, rot, "N", coprime_up(jit(2 ** 17)), 0 if z else rng.randint(1, 3), rng.randint(1, 3) if z else 0)
+            # R alone ((R+1)^2 reaches 2^22), H alone, R and H together
+            for k in [8, 9, 10, 11]:
+                yield self._big(rng, rot, "R", rng.randint(1, 3), jit(2 ** k) if k < 11 else 2 ** k + 1 + 2 * rng.randint(0, 100),
+                                rng.randint(1, 3))
+            for k in [8, 9, 10, 11] + ([12, 13] if tier != "quick" and rd == 0 else []):
+                yield self._big(rng, rot, "H", rng.randint(2, 5), rng.randint(1, 4),
+                                jit(2 ** k) if k < 11 else 2 ** k + rng.randint(0, 200))
+            for k in [7, 8]:
+                yield self._big(rng, rot, "R_and_H", rng.randint(2, 3), jit(2 ** k), jit(2 ** k), n_sample=3)
+
     def zero_cases(self, rng):
         """Zero-size dimensions in every option cell, both layouts, both entries, N in {0, 1, 2}
         (the design-phase defect lives here; N = 0 is outside the property's N >= 1 and only has to
@@ -656,11 +743,12 @@ class C01(PropertyCheck):
         n_long, n_wide, n_alias = {"quick": (40, 12, 40), "thorough": (600, 100, 400)}.get(tier, (900, 150, 600))
         yield from self.malformed_cases()
         for c in self._stream(rng, tier, triples, n_random, maxlen, exh_len, n_long, n_wide, n_alias):
-            yield self.decorate(rng, c)
+            yield self.decorate(rng, c)  # (a big case carries its presentation already)
 
     def _stream(self, rng, tier, triples, n_random, maxlen, exh_len, n_long, n_wide, n_alias):
         yield from self.zero_cases(rng)
         yield from self.sweep_cases(rng, 4 if tier == "quick" else 6)
+        yield from self.big_cases(rng, tier)
         for _ in range(n_alias):
             yield self.alias_case(rng, maxlen)
         # longer sequences than the rest of the stream (oracle: dpDist, proved equal to lev)
@@ -706,6 +794,8 @@ class C01(PropertyCheck):
     def run_impl(self, case):
         if case["kind"] == "malformed":
             return self._run_malformed(case)
+        if case["kind"] == "big":
+            return self._run_big(case)
         R, H = case["R"], case["H"]
         out = call_impl(case, case["ref"], case["hyp"], R, H)
         # batch independence: every column alone, and alone under another padding
@@ -731,6 +821,53 @@ class C01(PropertyCheck):
         out["alone"] = alone
         out["repadded"] = repadded
         return out
+
+    def _run_big(self, case):
+        """A large batch: the whole batch once (all the observations of a plain run), then model-free
+        re-evaluations of the SAME pairs that must give the same numbers: every sampled pair alone, the whole
+        batch with its columns permuted (reversed and rotated), the batch cut in two unequal parts."""
+        import torch
+        ref, hyp = expand_big(case)
+        N, R, H = case["N"], case["R"], case["H"]
+        bf, scalar = case["batch_first"], case["mode"] == "scalar"
+        canon = lambda o: o if (scalar or bf) else o.t()  # (N,) / (N, rows)
+        cell = lambda v: frac_str(v) if scalar else [frac_str(x) for x in v]
+        out, extra = call_impl(case, ref, hyp, R, H, tensor_out=True)
+        o = canon(out)
+        idx = sample_indices(case)
+        res = {"shape": list(out.shape), "dtype": str(out.dtype), "sample": idx,
+               "vals": [cell(o[i].tolist()) for i in idx]}
+        res.update(extra)
+        res["alone"] = [call_impl(case, [ref[i].tolist()], [hyp[i].tolist()], R, H, light=True)["vals"][0]
+                        for i in idx]
+
+        def diff(a, b, cols, how):
+            """Where do two (N, ..) results differ? -> {"n": count, "first": [..5 columns..]}"""
+            if a.shape != b.shape:
+                return {"n": -1, "first": [], "shapes": [list(a.shape), list(b.shape)], "how": how}
+            ne = ~((a == b) | (a.isnan() & b.isnan()))
+            if ne.dim() > 1:
+                ne = ne.any(1)
+            bad = ne.nonzero().flatten().tolist()
+            return {"n": len(bad), "how": how,
+                    "first": [{"col": int(cols[j]), "position": j, "in_batch": cell(a[j].tolist()),
+                               "other": cell(b[j].tolist())} for j in bad[-3:] + bad[:2]]}
+
+        perm = (N - 1 - torch.arange(N) + N // 3) % N
+        o2 = canon(call_impl(case, ref[perm], hyp[perm], R, H, light=True, tensor_out=True)[0])
+        res["permuted"] = diff(o[perm], o2, perm.tolist(), "columns reversed and rotated")
+        if N >= 2:
+            a = max(1, N // 3)
+            parts = [canon(call_impl(case, ref[lo:hi], hyp[lo:hi], R, H, light=True, tensor_out=True)[0])
+                     for lo, hi in ((0, a), (a, N))]
+            res["split"] = diff(o, torch.cat(parts, 0), list(range(N)), f"batch cut into columns [0, {a}) and [{a}, {N})")
+        res["facts"] = {
+            "ref_no_eos": bool(case["eos"] is not None and (ref != case["eos"]).all(1).any()),
+            "hyp_no_eos": bool(case["eos"] is not None and (hyp != case["eos"]).all(1).any()),
+            "empty_ref": bool(R == 0 or (case["eos"] is not None and not case["include_eos"] and R > 0
+                                         and (ref[:, 0] == case["eos"]).any())),
+        }
+        return res
 
     def _run_malformed(self, case):
         import torch
@@ -772,6 +909,15 @@ class C01(PropertyCheck):
             return {"op": "c01.shapes", "case": {"ref_shape": sh[0], "hyp_shape": sh[1],
                                                  "batch_first": case["what"] == "batch_mismatch_bf",
                                                  "mode": case["mode"]}}
+        if case["kind"] == "big":
+            ref, hyp = expand_big(case)
+            cols = [{"ref": ref[i].tolist(), "hyp": hyp[i].tolist()} for i in sample_indices(case)]
+            return {"op": "c01.sample", "case": {
+                "cols": cols, "with_model": big_with_model(case),
+                "eos": case["eos"], "include_eos": case["include_eos"], "norm": case["norm"],
+                "exclude_last": case["exclude_last"], "padding": case["padding"],
+                "ins": case["ins"], "del": case["del"], "sub": case["sub"], "mode": case["mode"],
+                "R": case["R"], "H": case["H"], "batch_first": case["batch_first"]}}
         return {"op": "c01.batch", "case": {
             "cols": [{"ref": r, "hyp": h} for r, h in zip(case["ref"], case["hyp"])],
             "eos": case["eos"], "include_eos": case["include_eos"], "norm": case["norm"],
@@ -781,7 +927,7 @@ class C01(PropertyCheck):
 
     # ------------------------------------------------------------------ comparison
     def _expected_shape(self, case):
-        N = len(case["ref"])
+        N = case["N"] if case["kind"] == "big" else len(case["ref"])
         if case["mode"] == "scalar":
             return [N]
         return [N, n_rows(case)] if case["batch_first"] else [n_rows(case), N]
@@ -799,8 +945,11 @@ class C01(PropertyCheck):
             out.append(f"shape impl={impl['shape']} expected={self._expected_shape(case)}")
         if impl["dtype"] != "torch.float32":
             out.append(f"dtype {impl['dtype']}")
-        for n, (iv, mc) in enumerate(zip(impl["vals"], model["cols"])):
+        names = impl["sample"] if case["kind"] == "big" else range(len(impl["vals"]))
+        for n, iv, mc in zip(names, impl["vals"], model["cols"]):
             mv = mc["model"]
+            if mv is None:
+                continue  # large pair: the cubic per-column model is not run, the oracle is (see predicate)
             if case["mode"] == "scalar":
                 want = fs(f32round(Fraction(mv)))
                 if iv != want:
@@ -858,15 +1007,32 @@ class C01(PropertyCheck):
             fails.append((f"result shape {impl['shape']}, expected {self._expected_shape(case)}", "C01.shape"))
         if model is None:
             return fails + self._presentation_failures(case, impl, model)
-        for n, (iv, mc) in enumerate(zip(impl["vals"], model["cols"])):
+        big = case["kind"] == "big"
+        names = impl["sample"] if big else range(len(impl["vals"]))
+        if big:
+            for key in ("permuted", "split"):
+                d = impl.get(key)
+                if d and d["n"] != 0:
+                    what = (f"shapes {d['shapes']}" if d["n"] < 0 else
+                            f"{d['n']} of {case['N']} pairs change, e.g. " + "; ".join(
+                                f"pair {e['col']}: {e['in_batch']} in the batch, {e['other']} at position "
+                                f"{e['position']}" for e in d["first"]))
+                    fails.append((f"the same pairs give other numbers when the batch is rearranged ({d['how']}): {what}",
+                                  "C01.batch_dependence"))
+        for n, iv, mc in zip(names, impl["vals"], model["cols"]):
             spec = mc["spec"]
             want = self._expect_col(case, spec)
             if want is not None and iv != want:
-                fails.append((f"column {n}: ref'={spec['ref_cut']} hyp'={spec['hyp_cut']} costs="
-                              f"({case['ins']},{case['del']},{case['sub']}): reported {iv}, weighted Levenshtein "
-                              f"{'per prefix ' if case['mode'] == 'prefix' else ''}says {want}", "C01.value"))
+                fails.append((f"column {n}: ref'={_brief(spec['ref_cut'])} hyp'={_brief(spec['hyp_cut'])} costs="
+                              f"({case['ins']},{case['del']},{case['sub']}): reported {_brief(iv)}, weighted Levenshtein "
+                              f"{'per prefix ' if case['mode'] == 'prefix' else ''}says {_brief(want)}", "C01.value"))
             # batch / padding independence
-            if impl["alone"]:
+            if big:
+                al = impl["alone"][impl["sample"].index(n)]
+                if al != iv:
+                    fails.append((f"column {n} of {case['N']}: value inside the batch {iv} differs from the same pair "
+                                  f"alone {al}", "C01.batch_dependence"))
+            elif impl["alone"]:
                 if impl["alone"][n] != iv:
                     fails.append((f"column {n}: value inside the batch {iv} differs from the same pair alone "
                                   f"{impl['alone'][n]}", "C01.batch_dependence"))
@@ -887,8 +1053,17 @@ class C01(PropertyCheck):
                                       f"the end-of-sequence token changes", "C01.garbage_dependence"))
         return fails + self._presentation_failures(case, impl, model)
 
-    def _expected_warnings(self, case):
+    def _expected_warnings(self, case, impl=None):
         """The documented warnings (docstring of `warn`, items 2 and 3) for this batch."""
+        if case["kind"] == "big":
+            f = (impl or {}).get("facts") or {}
+            out = set()
+            if case.get("warn", False):
+                if case["eos"] is not None and case["include_eos"]:
+                    out |= {k for k, fk in (("no_eos_ref", "ref_no_eos"), ("no_eos_hyp", "hyp_no_eos")) if f.get(fk)}
+                if case["norm"] and f.get("empty_ref"):
+                    out.add("empty_ref")
+            return sorted(out)
         if not case.get("warn", False) or not case["ref"]:
             return []
         eos, inc = case["eos"], case["include_eos"]
@@ -911,9 +1086,9 @@ class C01(PropertyCheck):
             fails.append(("a second call of the same module object on the same batch gave another result", "C01.module_state"))
         for b in impl.get("module_attrs") or []:
             fails.append((f"module does not carry the option it was constructed with: {b}", "C01.module_attrs"))
-        if "warned" in impl and impl["warned"] != self._expected_warnings(case):
+        if "warned" in impl and impl["warned"] != self._expected_warnings(case, impl):
             fails.append((f"warn={case.get('warn', False)}: library warnings {impl['warned']}, documented for this "
-                          f"batch: {self._expected_warnings(case)}", "C01.warnings"))
+                          f"batch: {self._expected_warnings(case, impl)}", "C01.warnings"))
         return fails
 
     # ------------------------------------------------------------------ evidence
@@ -924,11 +1099,16 @@ class C01(PropertyCheck):
             yield rc, hc
 
     def nontrivial(self, case, impl):
+        if case["kind"] == "big":
+            return True  # long noisy windows of the reference in the first / last columns
         if case["kind"] != "batch":
             return False
         return any(rc and hc and rc != hc and len(set(rc + hc)) > 1 for rc, hc in self._cols_info(case))
 
     def key(self, case):
+        if case["kind"] == "big":
+            return repr([case[k] for k in ("mode", "entry", "eos", "include_eos", "norm", "batch_first",
+                                           "exclude_last", "ins", "del", "sub", "N", "R", "H", "gen")])
         cell = (case["mode"], case["entry"], case["eos"] is None, case["include_eos"], case["norm"],
                 case["batch_first"], case["exclude_last"], case["ins"], case["del"], case["sub"])
         cols = [(tuple(rc), tuple(hc)) for rc, hc in self._cols_info(case)]
@@ -937,6 +1117,8 @@ class C01(PropertyCheck):
     def tags(self, case, impl):
         if case["kind"] == "malformed":
             return ["malformed:" + case["what"], "malformed_entry=" + case.get("entry", "functional")]
+        if case["kind"] == "big":
+            return self._big_tags(case, impl)
         t = [f"mode={case['mode']}", f"entry={case['entry']}", f"include_eos={case['include_eos']}",
              f"norm={case['norm']}", f"batch_first={case['batch_first']}",
              f"exclude_last={case['exclude_last']}", f"N={min(len(case['ref']), 5)}{'+' if len(case['ref']) > 5 else ''}"]
@@ -1017,6 +1199,27 @@ class C01(PropertyCheck):
                 self._pairs.add((tuple(rc), tuple(hc), cell))
         return t
 
+    def _big_tags(self, case, impl):
+        N, R, H = case["N"], case["R"], case["H"]
+        lg = lambda x: max(int(x), 1).bit_length() - 1
+        t = ["big", "big:family=" + case["family"], f"big:mode={case['mode']}", f"big:entry={case['entry']}",
+             f"big:batch_first={case['batch_first']}", f"big:norm={case['norm']}",
+             "big:eos=" + ("unset" if case["eos"] is None else "in_data" if case["eos"] == case["gen"]["alphabet"]
+                           else "absent"),
+             "big:costs=" + ("uniform_shortcut" if case["ins"] == case["del"] == case["sub"] else "nonuniform"),
+             f"big:(R+1)^2*N>=2^{lg((R + 1) ** 2 * N):02d}", f"big:N*R*H>=2^{lg(N * R * H):02d}"]
+        if N >= 2 ** 14:
+            t.append(f"big:N>=2^{lg(N)}")
+        if R >= 2 ** 7:
+            t.append(f"big:R>=2^{lg(R):02d}")
+        if H >= 2 ** 7:
+            t.append(f"big:H>=2^{lg(H):02d}")
+        t.append("big:lean_per_column_model=" + ("run" if big_with_model(case) else "oracle_only"))
+        t.append("big:layout=" + "/".join(case.get("layout") or ["contig", "contig"]))
+        if impl and impl.get("warned"):
+            t += ["warned:" + k for k in impl["warned"]]
+        return t
+
     def extra_checks(self, rng, tier, report):
         report["extra"]["distinct_nontrivial_pairs"] = len(self._pairs)
         report["extra"]["exhaustive_note"] = (
@@ -1027,6 +1230,9 @@ class C01(PropertyCheck):
 
     # ------------------------------------------------------------------ shrinking
     def shrink(self, case):
+        if case["kind"] == "big":
+            yield from self._shrink_big(case)
+            return
         if case["kind"] != "batch":
             return
         N = len(case["ref"])
@@ -1083,6 +1289,36 @@ class C01(PropertyCheck):
                         cols[n][i] = 0
                         c[key] = cols
                         yield c
+
+    def _shrink_big(self, case):
+        """Smaller sizes (the batch is regenerated from the seed), plainer options. A size-triggered failure
+        stops shrinking at its trigger, which is what the replay should show."""
+        N, R, H = case["N"], case["R"], case["H"]
+        for n in (N // 4, N // 2, N * 3 // 4, N * 7 // 8, N - 1):
+            if 1 <= n < N:
+                yield dict(case, N=n)
+        for r in (R // 2, R * 3 // 4, R - 1):
+            if 1 <= r < R:
+                yield dict(case, R=r)
+        for h in (H // 2, H * 3 // 4, H - 1):
+            if 1 <= h < H:
+                yield dict(case, H=h)
+        for k in ("batch_first", "norm", "include_eos", "exclude_last", "warn"):
+            if case.get(k):
+                yield dict(case, **{k: False})
+        if case["entry"] == "module":
+            yield dict(case, entry="functional")
+        if case["mode"] == "prefix" and not case["exclude_last"]:
+            yield dict(case, mode="scalar")
+        for k in ("ins", "del", "sub"):
+            if case[k] != "1":
+                yield dict(case, **{k: "1"})
+        for k, plain in (("call", "positional"), ("ctor", "positional"), ("tok_dtype", ["int64", "int64"]),
+                         ("layout", ["contig", "contig"]), ("padding", -100)):
+            if case.get(k) != plain:
+                yield dict(case, **{k: plain})
+        if case["gen"]["noise"] != 0.0:
+            yield dict(case, gen=dict(case["gen"], noise=0.0))
 
 
 CHECK = C01()
